@@ -162,6 +162,7 @@ pub fn run(p: &Params) -> Report {
         w.profile.withdraw = 10;
         w.profile.dependent_permille = 500;
         w.profile.hostile = 8;
+        w.profile.degenerate_permille = 70;
         let blocks = 6 + (case % 9) as usize;
         run_history(&mut w, blocks, &mut [&mut mon]);
     }
